@@ -264,11 +264,11 @@ def install():
                      res={'ok': False, 'err': 'RuntimeError'}, called=0)
                 raise
             e = t.ev(ev=endname, inv=state['inv'], out='raised', err=x.__class__.__name__,
-                     same=state['exc'] is not None and x is state['exc'], ret={'k': 'none'}, fault=False)
+                     same=state['exc'] is not None and x is state['exc'], ret={'k': 'none'}, fault=False, base=False)
             if is_bf:
                 e['real'] = _real(target)
             raise
-        e = t.ev(ev=endname, inv=state['inv'], out='ok', err='', same=False, ret=_term(ret), fault=False)
+        e = t.ev(ev=endname, inv=state['inv'], out='ok', err='', same=False, ret=_term(ret), fault=False, base=False)
         if is_bf:
             e['real'] = _real(target)
         return ret
